@@ -229,6 +229,26 @@ def run_case(ck, desc):
         o[0] = float(round(o[0]))
     if desc.get("int_params"):
         o[1], o[3] = float(round(o[1])), float(round(o[3]))
+    # the same values handed over as a 2-D array, a column vector and (first element) a 0-d array:
+    # a form that is accepted must give the input's shape and the same element-wise values; a form
+    # the correlation does not accept raises, and nothing is claimed about it
+    n_el = view_before.shape[0]
+    if n_el >= 2 and view.dtype.kind == "f":
+        forms = [("column", view_before.reshape(-1, 1).copy()), ("0-d", np.array(view_before[0]))]
+        if n_el % 2 == 0:
+            forms.append(("2-d", view_before.reshape(2, -1).copy()))
+        for label, arr in forms:
+            try:
+                o2 = np.asarray(arr_call(arr))
+            except Exception as e:  # noqa: BLE001
+                ck.count(f"shape_form_not_accepted.{label}.{type(e).__name__}")
+                continue
+            ck.count(f"shape_form_accepted.{label}")
+            want = np.asarray(refs[: arr.size], dtype=float).reshape(arr.shape)
+            if o2.shape != arr.shape:
+                ck.violation("same-shape", {"fn": desc["fn"], "form": label, "got": list(o2.shape), "want": list(arr.shape)}, desc)
+            elif not np.all(np.abs(o2.astype(float) - want) <= 256 * eps * np.abs(want) + 1e-300):
+                ck.violation("elementwise", {"fn": desc["fn"], "form": label, "max_rel": float(np.max(np.abs(o2.astype(float) - want) / np.abs(want)))}, desc)
     # second call on the SAME buffer after the caller has overwritten its contents in place
     if view.shape[0] >= 2 and view.dtype.kind == "f":
         view *= 0.7
